@@ -2,6 +2,11 @@
 """Regenerates MANIFEST.json from the table below (keeps it valid at all times)."""
 import json, sys
 CHECKS = {
+ "C20": dict(level="exploration", design="4/C20",
+   text="Metamorphic determinism check over the inputs of C06/C07/C08/C14/C16 (GDSII hierarchies, raw libraries with multi-layer abstract ports/blockages, LEF libraries with several layers per pin, gridded cells with abstract views): each input description is materialised 6 times in one process (fresh hash maps, hence fresh per-map hash keys) and in 3 separate child processes (fresh per-process keys), converted (GDSII->raw, raw->GDSII, raw->protobuf, LEF->raw->LEF, gridded->raw->GDSII/protobuf) and rendered to a transcript preserving every sequence order (GDSII timestamps masked); all transcripts must be identical.",
+   note="Hash seeds cannot be chosen, so detection is probabilistic per input (>= 1 - 2^-5 for a two-key map in-process) but effectively certain over hundreds of inputs; a deterministic tree can never fail the check.",
+   technique="property-based testing with a metamorphic oracle (repeated materialisation in-process and across child processes)"),
+
  "C08": dict(level="exploration", design="4/C08",
    text="Seeded proptest search over a family of layer stacks (1-4 metals alternating direction, rails/signals/gaps written flat or with Repeat groups, offsets, overlapping rails, with/without every-other-period flipping, palindromic and asymmetric patterns, pitch 1-3 primitive pitches) crossed with well-formed cells (outlines of whole periods, cuts and assignments at in-range crossings, leaf instances in all four reflections aligned to periods; 1 in 12 outlines deliberately not whole periods: error required). Oracle R-tracks computed from the stack description alone: per layer and track the wire pieces, requested cuts and true instance extents tile [0, span] exactly, nothing else on the layer; one via of the stack's size centred on each assigned crossing carrying the net; nets on exactly the covering pieces; rails VDD/VSS.",
    note="Non-rectangular outlines, odd widths/cut/via sizes, instances not aligned to whole periods and abstract ports are not generated. Tracks are numbered in the order their period lists them.",
